@@ -8,7 +8,7 @@
     check_lower_to_memory / check_lift_from_memory; it is evaluated by the check on the REAL streams and is
     not yet a theorem (see DESIGN.md, C01 staging). *)
 From Coq Require Import List NArith Arith.
-From WB Require Import Wit.Ty Canon.Spec Abi.Sig Abi.Instr Abi.CastSem Abi.Gen Abi.SigProofs Abi.LayoutProofs Abi.GenDiscipline.
+From WB Require Import Wit.Ty Canon.Spec Abi.Sig Abi.Instr Abi.CastSem Abi.Gen Abi.SigProofs Abi.LayoutProofs Abi.GenDiscipline Abi.GenFlatDiscipline.
 Import ListNotations.
 
 Theorem C01_flat_types_exact : forall t max,
@@ -66,7 +66,24 @@ Theorem C01_lift_from_memory_never_panics : forall canon t,
   ok_with (lift_from_memory canon t) gst0 (fun _ s' => exists v, stack s' = [v]).
 Proof. exact lift_from_memory_never_panics. Qed.
 
+(** Flat form, stack discipline: for EVERY type whose flattening fits the 16-slot buffer, the flat lowering reaches no
+    panic site (stack underflow, unset realloc, flat_types(..).unwrap(), unreachable cast), consumes its one operand
+    and leaves exactly as many core values as the canonical flatten has entries - every variant arm included, after
+    bitcasts and zero padding. *)
+Theorem C01_flat_lowering_produces_flattened_count : forall canon t,
+  length (wflat t) <= 16 -> forall s x st r, stack s = x :: st -> realloc s = Some r ->
+  ok_with (lower canon t) s
+    (fun _ s' => exists vals, length vals = length (wflat t) /\ stack s' = vals ++ st /\ frame s s').
+Proof. exact lower_ok. Qed.
+
+Theorem C01_lower_flat_canonical_count : forall canon pw t, pw = 4%N \/ pw = 8%N ->
+  length (Spec.flatten pw t) <= 16 ->
+  ok_with (lower_flat canon t) gst0 (fun _ s' => length (stack s') = length (Spec.flatten pw t)).
+Proof. exact lower_flat_canonical_count. Qed.
+
 Print Assumptions C01_flat_types_exact.
+Print Assumptions C01_flat_lowering_produces_flattened_count.
+Print Assumptions C01_lower_flat_canonical_count.
 Print Assumptions C01_memory_lifting_produces_one_operand.
 Print Assumptions C01_lift_from_memory_never_panics.
 Print Assumptions C01_memory_lowering_consumes_its_operand.
